@@ -352,7 +352,7 @@ def check(prop, tier, seed):
         scs = gen_scenarios(tier, seed, want_steps=(prop == 'C05'))
         if prop == 'C05':
             from vv import props_steps
-            scs = (props_steps.dag_scenarios(3) +
+            scs = (props_steps.dag_scenarios(3) + props_steps.dag_scenarios(3, nest=True) +
                    (props_steps.dag_scenarios(4) if tier == 'thorough' else [])
                    + scs[-(900 if tier == 'quick' else 4000):])
             rep.notes['flows_enumerated'] = (
